@@ -4,7 +4,7 @@
 //! installs an override on the calling thread.
 #![allow(missing_docs)]
 
-use std::cell::Cell;
+use std::cell::{Cell, RefCell};
 
 /// H1: crate-private polynomial helpers, re-exported for direct checking.
 pub mod polysmallmod {
@@ -38,4 +38,28 @@ pub(crate) fn next_entropy_seed() -> Option<[u8; 64]> {
         hasher.finalize_xof().fill(&mut seed);
         Some(seed)
     })
+}
+
+thread_local! {
+    static YIELD_HOOK: RefCell<Option<Box<dyn Fn(&'static str)>>> = const { RefCell::new(None) };
+}
+
+/// H3: install (Some) or remove (None) a scheduler callback for the calling thread.
+/// The library calls it at named points of the lazily grown caches where no lock is held.
+pub fn set_yield_hook(hook: Option<Box<dyn Fn(&'static str)>>) {
+    YIELD_HOOK.with(|h| *h.borrow_mut() = hook);
+}
+
+#[inline]
+pub(crate) fn yield_point(site: &'static str) {
+    YIELD_HOOK.with(|h| {
+        if let Some(f) = h.borrow().as_ref() {
+            f(site);
+        }
+    });
+}
+
+/// H4: snapshot of the Galois permutation-table cache of a context (one entry per odd element index).
+pub fn galois_tables(context: &crate::HeContext) -> Vec<Vec<usize>> {
+    context.key_context_data().unwrap().galois_tool().verif_tables()
 }
